@@ -17,7 +17,10 @@ from c01 import report_traces, SYMLIST
 from c03 import Runner, init_struct, universe_legs, subset_leg
 
 WEIGHTS = {'lincomb': 2, 'add3': 3, 'scale': 0.5, 'conj': 1, 'flip_signature': 0.7, 'flip_charges': 1.5, 'transpose': 3,
-           'tensordot': 4, 'trace': 2, 'add_leg': 3, 'remove_leg': 3, 'fuse': 3, 'unfuse': 2, 'consume_transpose': 0.5, 'vdot': 0.3}
+           'tensordot': 4, 'trace': 2, 'add_leg': 3, 'remove_leg': 3, 'fuse': 3, 'unfuse': 2, 'consume_transpose': 0.5, 'vdot': 0.3, 'diag': 4}
+# well-formedness must hold under every configuration: programs are generated and run under the three tensordot policies and both default fusion modes
+KNOBS = [{'fusion': 'hard', 'force': None, 'policy': 'fuse_to_matrix'}] * 3 + [{'fusion': 'meta', 'force': None, 'policy': 'no_fusion'}, {'fusion': 'hard', 'force': None, 'policy': 'no_fusion'},
+                                                                               {'fusion': 'hard', 'force': None, 'policy': 'fuse_contracted'}, {'fusion': 'meta', 'force': None, 'policy': 'fuse_contracted'}]
 
 
 def program(args):
@@ -36,7 +39,7 @@ def program(args):
     inv = [p.index(i) for i in range(rank)]
     tw = dict(st, s=[s[i] for i in inv], legs=[legs[i] for i in inv], dataseed=rng.randrange(1 << 30))
     inits.append(tw)
-    R = Runner(sym, seed, inits)
+    R = Runner(sym, seed, inits, knob=KNOBS[seed % len(KNOBS)])
     t3 = R.do({'op': 'transpose', 'a': 2, 'p': p})           # register 3: logical shape of register 0, lazy trans
     if t3 is not None and rng.random() < 0.8:
         order = [0, 1, t3]
